@@ -62,7 +62,7 @@ static void w_setup(int cfg, int thorough)
         w_ops[w_nops++] = OP(O_WP_SWAP, 0, 1); if (NW > 2) w_ops[w_nops++] = OP(O_WP_SWAP, 1, 2);
     } else {
         snprintf(cfgdesc, sizeof cfgdesc, "%d unique pointer objects: alloc with/without clear callback, alloc(0), release, swap, reset", NUP);
-        for (i = 0; i < NUP; i++) { w_ops[w_nops++] = OP(O_UP_ALLOC, i, 0); w_ops[w_nops++] = OP(O_UP_ALLOC_NOCLR, i, 0); w_ops[w_nops++] = OP(O_UP_ALLOC0, i, 0); w_ops[w_nops++] = OP(O_UP_RELEASE, i, 0); w_ops[w_nops++] = OP(O_UP_RESET, i, 0); w_ops[w_nops++] = OP(O_UP_ALLOC_HUGE, i, 0); }
+        for (i = 0; i < NUP; i++) { w_ops[w_nops++] = OP(O_UP_ALLOC, i, 0); w_ops[w_nops++] = OP(O_UP_ALLOC_NOCLR, i, 0); w_ops[w_nops++] = OP(O_UP_ALLOC0, i, 0); w_ops[w_nops++] = OP(O_UP_RELEASE, i, 0); w_ops[w_nops++] = OP(O_UP_RELEASE, i, 1);       /* b == 1: release(up, NULL, NULL) */ w_ops[w_nops++] = OP(O_UP_RESET, i, 0); w_ops[w_nops++] = OP(O_UP_ALLOC_HUGE, i, 0); }
         w_ops[w_nops++] = OP(O_UP_SWAP, 0, 1);
     }
 }
@@ -225,8 +225,9 @@ static void w_apply(mc_op_t o)
         static cstl_xtor_func_t * volatile f; static void * volatile pv; static void * volatile p; int old = m_up[a];
         f = (cstl_xtor_func_t *)cb_clear; pv = (void *)&f; p = NULL;
         MC_COUNT(K_UP_RELEASE);
-        SHIM_CALL(ab, p = cstl_unique_ptr_release(&UP[a], (cstl_xtor_func_t **)&f, (void **)&pv));
+        if (b) SHIM_CALL(ab, p = cstl_unique_ptr_release(&UP[a], NULL, NULL)); else SHIM_CALL(ab, p = cstl_unique_ptr_release(&UP[a], (cstl_xtor_func_t **)&f, (void **)&pv));
         if (ab) break;
+        if (b && old >= 0) { f = AL[old].has_clr ? (cstl_xtor_func_t *)cb_clear : NULL; pv = (void *)&cookies[AL[old].cookie]; }      /* nothing reported: the caller did not ask */
         if (old >= 0) {
             MC_CHECK(PC05, p == AL[old].mem, "release returned %p, the managed memory is %p", p, AL[old].mem);
             MC_CHECK(PC05, (f != NULL) == AL[old].has_clr && (!AL[old].has_clr || pv == (void *)&cookies[AL[old].cookie]), "release reported clear function %s / private pointer %s", f ? "set" : "NULL", pv == (void *)&cookies[AL[old].cookie] ? "right" : "wrong");
@@ -356,7 +357,7 @@ static void w_opname(mc_op_t o, char *b, size_t n)
     case O_UP_ALLOC: snprintf(b, n, "unique_alloc(up%d,16,clr,priv%d)", OA(o), OA(o)); break;
     case O_UP_ALLOC_NOCLR: snprintf(b, n, "unique_alloc(up%d,16,NULL)", OA(o)); break;
     case O_UP_ALLOC0: snprintf(b, n, "unique_alloc(up%d,0,clr)", OA(o)); break;
-    case O_UP_RELEASE: snprintf(b, n, "release(up%d)", OA(o)); break;
+    case O_UP_RELEASE: snprintf(b, n, OB(o) ? "release(up%d,NULL,NULL)" : "release(up%d,&clr,&priv)", OA(o)); break;
     case O_UP_SWAP: snprintf(b, n, "unique_swap(up0,up1)"); break;
     default: snprintf(b, n, "unique_reset(up%d)", OA(o)); break;
     }
